@@ -90,4 +90,20 @@ var checks = map[string]check{
 		Rule:   "multi-file IDL models (annotations with repeated keys, comments, constants of every shape, typedef chains across files, same base names) parsed and resolved by the real front end; GetFileDescriptor compared field by field with a descriptor content computed from the model alone; lookups by name/id across includes after RegisterAST; Marshal/Unmarshal identity; non-trivial = >=2 files, repeated annotation keys and a typedef chain crossing files, distinct by program text",
 		Assume: []string{"representation details descriptor.thrift leaves open (comment markers, requiredness letter case, 'void' response type) are compared by content only", "map constants are compared as unordered entry sets", "the generated-code half (descriptors reachable from compiled packages) is not covered by this job"},
 	},
+	"C01": {
+		ID: "C01", Pkg: "c01", NeedBin: true, MaxPar: 12,
+		Jobs: []job{
+			{Run: "^TestCompiles$", Quick: 40, QShards: 10, Thor: 2500, TShards: 14},
+		},
+		Rule:   "IDL models (1-3 files, every definition kind, typedef chains, cross-include references, negative/implicit/hex ids, defaults and constants in every spelling, annotations, files without a go namespace) x go/fastgo x drawn option configurations (none, one option, 2-8 options in bare/=true/=false form, naming styles, slim/raw_struct templates, package_prefix) x -r on/off; thriftgo exit 0 => every written .go file parses and all generated packages type-check together (go/types, runtime libraries from source); non-trivial = compiled program with a cross-file reference or a non-default option, distinct by IDL text and command line",
+		Assume: []string{"options that need resources absent offline are not drawn: code_ref*, exp_code_ref, keep_code_ref_name (idl-ref.yaml + foreign package), thrift_streaming/streamx (kitex is not cached), use_option (option IDL), skip_go_gen (writes nothing), apache_adaptor", "go namespaces are layered so that includes cannot form Go import cycles; files without a go namespace have unique base names; a throws entry never has id 0 (the id of `success`)", "names are unique program-wide (collision-renaming stress is not generated yet)", "a valid program that thriftgo rejects is counted (status:rejected_valid), not reported: C04 decides diagnostics"},
+	},
+	"C18": {
+		ID: "C18", Pkg: "c18", NeedBin: true, MaxPar: 8,
+		Jobs: []job{
+			{Run: "^TestDeepEqual$", Quick: 4, QShards: 8, Thor: 60, TShards: 14},
+		},
+		Rule:   "one rapid case = one generated program under go:gen_deep_equal (+0-2 presentation-only options) built into a driver, then 30-100 pairs (copy, exactly one leaf changed at a drawn depth, independent values, same object, nil receivers/arguments/fields) judged against a reference structural equality, plus Write on sets with/without an injected duplicate (validate_set); non-trivial = the pair differs in exactly one leaf at depth >=2, or only in one map key; distinct by program, configuration, struct and both values",
+		Assume: []string{"the expectation is computed under a strict and a liberal reading of the statement and asserted only where both agree (otherwise only no-panic and symmetry): optional binary unset vs empty, optional-with-default absent vs present-equal-to-default, nil pointer vs object", "NaN and -0 are not generated; sets are compared in order"},
+	},
 }
